@@ -361,7 +361,10 @@ func planC20(tier string, seed uint64) *Plan {
 	if tier == "thorough" {
 		n, jobs, count = 32, 4, 500
 	}
-	p.Phases = []Phase{{Name: "hook-sessions", Groups: randomPlan("ui_hook", seed, uiCfgs(seed, n, hookVariants), jobs, count, "stub")}}
+	groups := randomPlan("ui_hook", seed, uiCfgs(seed, n, hookVariants), jobs, count, "stub")
+	// the same under racing pacing: type-ahead while the hook is being started
+	groups = append(groups, randomPlan("ui_hook_race", seed+17, uiCfgs(seed+17, n, hookVariants), 1, count/2, "stub")...)
+	p.Phases = []Phase{{Name: "hook-sessions", Groups: groups}}
 	return p
 }
 
